@@ -10,13 +10,30 @@ import (
 	"os"
 
 	"github.com/jmattheis/goverter"
+	"github.com/jmattheis/goverter/config"
 	"github.com/jmattheis/goverter/enum"
 )
 
 func VerifHarness_C17_Run() {
 	outcome := nondetChoice("parse.outcome", 4)
 	genFails := nondetChoice("generate.fails", 2) == 1
-	cfg := &goverter.GenerateConfig{EnumTransformers: map[string]enum.Transformer{}}
+	// the parsed configuration: every field arbitrary; the embedding program may add enum transformers
+	tags, constraint, cwd, pattern, global := nondetAtom("buildTags"), nondetAtom("constraint"), nondetAtom("cwd"), nondetAtom("pattern"), nondetAtom("global")
+	parsedT := func(enum.TransformContext) (map[string]string, error) { return nil, nil }
+	customT := func(enum.TransformContext) (map[string]string, error) { return map[string]string{}, nil }
+	cfg := &goverter.GenerateConfig{
+		PackagePatterns: []string{pattern}, WorkingDir: cwd, BuildTags: tags, OutputBuildConstraint: constraint,
+		Global:           config.RawLines{Location: "cli", Lines: []string{global}},
+		EnumTransformers: map[string]enum.Transformer{"parsed": parsedT},
+	}
+	ncustom := nondetChoice("custom.transformers", 3)
+	var ropts RunOpts
+	if ncustom > 0 {
+		ropts.EnumTransformers = map[string]enum.Transformer{}
+		for i := 0; i < ncustom; i++ {
+			ropts.EnumTransformers[[]string{"custom1", "custom2"}[i]] = customT
+		}
+	}
 	switch outcome {
 	case 0:
 		verifStubReturn("github.com/jmattheis/goverter/cli.Parse", nil, errors.New("usage"))
@@ -32,7 +49,7 @@ func VerifHarness_C17_Run() {
 	} else {
 		verifStubReturn("github.com/jmattheis/goverter.GenerateConverters", nil)
 	}
-	code := verifCatchExit(func() { Run([]string{"goverter", "gen", "./..."}, RunOpts{}) })
+	code := verifCatchExit(func() { Run([]string{"goverter", "gen", "./..."}, ropts) })
 	gens := verifEffectCount("call:github.com/jmattheis/goverter.GenerateConverters")
 	prints := verifEffectCount("fmt.Fprintln")
 	switch outcome {
@@ -47,7 +64,18 @@ func VerifHarness_C17_Run() {
 		verifAssert("help-does-not-generate", gens == 0)
 		verifAssert("help-goes-to-stdout", prints == 1 && verifEffectArg("fmt.Fprintln", 0, 0).(*os.File) == os.Stdout)
 	case 2:
-		verifAssert("gen-calls-generator-once-with-the-parsed-config", gens == 1 && verifEffectArg("call:github.com/jmattheis/goverter.GenerateConverters", 0, 0).(*goverter.GenerateConfig) == cfg)
+		verifAssert("gen-calls-generator-once", gens == 1)
+		if gens == 1 {
+			got := verifEffectArg("call:github.com/jmattheis/goverter.GenerateConverters", 0, 0).(*goverter.GenerateConfig)
+			verifAssert("parsed-patterns-and-cwd-reach-the-generator", got != nil && len(got.PackagePatterns) == 1 && got.PackagePatterns[0] == pattern && got.WorkingDir == cwd)
+			verifAssert("parsed-build-tags-reach-the-generator", got != nil && got.BuildTags == tags)
+			verifAssert("parsed-output-constraint-reaches-the-generator", got != nil && got.OutputBuildConstraint == constraint)
+			verifAssert("parsed-global-lines-reach-the-generator", got != nil && len(got.Global.Lines) == 1 && got.Global.Lines[0] == global && got.Global.Location == "cli")
+			if got != nil {
+				_, hasParsed := got.EnumTransformers["parsed"]
+				verifAssert("transformers-are-merged", hasParsed && len(got.EnumTransformers) == 1+ncustom)
+			}
+		}
 		if genFails {
 			verifReach("generation-error")
 			verifAssert("generation-error-exits-1", code == 1)
